@@ -134,13 +134,14 @@ static void bomb_inspect(htp_connp_t *c, hx_obs *o, void *ctx) {
     if (delivered > bound) hx_verdict_add("C07", "bomb_bound", "%s: %lld decompressed bytes delivered for %zu compressed bytes offered, bound max(%zu, 2048 x %zu) + 8192 = %lld", DT.desc, (long long) delivered, compressed_offered, bomb_limit_cur, compressed_offered, (long long) bound);
     if (DT.expect_exact && delivered != (int64_t) DT.wn) hx_verdict_add("C07", "layers", "%s: %lld bytes delivered, expected %zu", DT.desc, (long long) delivered, DT.wn);
 }
+static int bomb_outer_mode;      /* 7: the outer of two layers is Huffman-only, the wire size is about a 6500th of the payload instead of a 250000th */
 static void bomb_case(size_t zeros, int layers, size_t limit, int layer_limit, int delivery) {
     if (case_id++ % hx_shard_n != hx_shard_i || hx_deadline_hit()) return;
     static hx_buf raw, z1, z2, z3, q, r;
     hb_reset(&raw); hb_reset(&z1); hb_reset(&z2); hb_reset(&z3); hb_reset(&q); hb_reset(&r);
     { uint8_t *zz = calloc(1, zeros); hb_put(&raw, zz, zeros); free(zz); }
     gx_deflate(&z1, raw.p, raw.n, 0); hx_buf *top = &z1;
-    if (layers >= 2) { gx_deflate(&z2, z1.p, z1.n, 0); top = &z2; }
+    if (layers >= 2) { gx_deflate(&z2, z1.p, z1.n, layers == 2 ? bomb_outer_mode : 0); top = &z2; }
     if (layers >= 3) { gx_deflate(&z3, z2.p, z2.n, 0); top = &z3; }
     hb_puts(&q, "GET /b HTTP/1.1\r\nHost: h\r\n\r\n");
     hb_printf(&r, "HTTP/1.1 200 OK\r\nContent-Encoding: %s\r\nContent-Length: %zu\r\n\r\n", layers == 1 ? "gzip" : layers == 2 ? "gzip, gzip" : "gzip, gzip, gzip", top->n);
@@ -177,7 +178,7 @@ static void bomb_tail_case(size_t zeros, size_t tail, int layers, size_t limit, 
     { uint8_t *zz = calloc(1, zeros); hb_put(&raw, zz, zeros); free(zz); }
     uint32_t x = 12345; for (size_t i = 0; i < tail; i++) { x = x * 1664525u + 1013904223u; hb_putc(&raw, (int) (x >> 24)); }
     gx_deflate(&z1, raw.p, raw.n, 0); hx_buf *top = &z1;
-    if (layers >= 2) { gx_deflate(&z2, z1.p, z1.n, 0); top = &z2; }
+    if (layers >= 2) { gx_deflate(&z2, z1.p, z1.n, layers == 2 ? bomb_outer_mode : 0); top = &z2; }
     if (top->n / chunk + 8 > HX_MAXOPS) return;
     hb_puts(&q, "GET /b HTTP/1.1\r\nHost: h\r\n\r\n");
     hb_printf(&r, "HTTP/1.1 200 OK\r\nContent-Encoding: %s\r\nContent-Length: %zu\r\n\r\n", layers == 1 ? "gzip" : "gzip, gzip", top->n);
@@ -253,6 +254,10 @@ static int worker(int argc, char **argv) {
         size_t zeros = thorough ? (64u << 20) : (4u << 20);
         for (int layers = 1; layers <= 3; layers++) for (int li = 0; li < 3; li++) for (int d = 0; d < 3; d++) bomb_case(zeros, layers, LIM[li], -1, d);
         for (int ll = 0; ll <= 3; ll++) for (int layers = 1; layers <= 3; layers++) bomb_case(200000, layers, 0, ll, 0);
+        /* wide bombs: the wire size exceeds one output buffer (10 KiB / 20 KiB), so a bound that is off by a fraction of the wire size shows */
+        bomb_outer_mode = 7;
+        for (int zi = 0; zi < 2; zi++) for (int li = 0; li < 3; li++) for (int d = 0; d < 2; d++) bomb_case(zi ? (128u << 20) : (64u << 20), 2, LIM[li], -1, d);
+        bomb_outer_mode = 0;
         static const size_t TLIM[] = { 4096, 100000, 0 };
         for (int layers = 1; layers <= 2; layers++) for (int li = 0; li < 3; li++) for (size_t ch = 1; ch <= 5; ch += (ch < 3 ? 1 : 2))
             for (int zi = 0; zi < 2; zi++) bomb_tail_case(zi ? (12u << 20) : (1u << 20), thorough ? 7000 : 4000, layers, TLIM[li], ch);
